@@ -53,6 +53,7 @@ class KaniUnit:
         self.notes = []
         self.deps = []
         self.stubbing = False
+        self.supports = []      # //# support FILE: units/support/FILE is included in the harness module after verif_support.rs
         for ln in text.split('\n'):
             s = ln.strip()
             if not s.startswith('//#'):
@@ -72,8 +73,10 @@ class KaniUnit:
                 self.harnesses.append(Harness(self, parts[1], parse_kv(parts[2:])))
             elif parts[0] == 'assume':
                 self.notes.append(' '.join(parts[1:]))
+            elif parts[0] == 'support':
+                self.supports.append(parts[1])
         declared = set(h.name for h in self.harnesses)
-        defined = set(re.findall(r'^\s*harness(?:_cvc5)?!\(\s*(\w+)\s*,', text, re.M))
+        defined = set(re.findall(r'^\s*harness(?:_cvc5|_bi)?!\(\s*(\w+)\s*,', text, re.M))
         if declared != defined:
             raise RuntimeError('%s: harness annotations and harness! definitions differ: %s' %
                                (path, sorted(declared ^ defined)))
@@ -136,7 +139,7 @@ def strip_harnesses(text, keep):
     i = 0
     while i + 3 < len(st):
         t = st[i]
-        if t.kind == 'ident' and t.text in ('harness', 'harness_cvc5') and st[i + 1].text == '!' and st[i + 2].text == '(' \
+        if t.kind == 'ident' and t.text in ('harness', 'harness_cvc5', 'harness_bi') and st[i + 1].text == '!' and st[i + 2].text == '(' \
                 and st[i + 3].kind == 'ident' and (i == 0 or st[i - 1].text != 'macro_rules'):
             k = match_close(st, i + 2)
             end = st[k].end
@@ -165,6 +168,8 @@ STUBBING_PKGS = set()
 def prepare(unit, scratch, keep=None):
     """materialise the unit in the scratch copy. Returns dict(workdir, pkg, sha_before) or raises AnchorLost-like"""
     support = open(SUPPORT).read()
+    for extra_support in unit.supports:
+        support += '\n' + open(os.path.join(os.path.dirname(SUPPORT), extra_support)).read()
     if unit.stubbing and unit.kind != 'kani_ext':
         STUBBING_PKGS.add((scratch.repo, unit.crate))
     if unit.kind == 'kani_ext':
@@ -276,7 +281,7 @@ def run_harness(unit, h, prep, scratch, playback=False):
     return r
 
 
-RE_TEST = re.compile(r'/// Check for `([^`]*)`: "+(.*?)"+\s*\n#\[test\]\nfn (\w+)\(\) \{\n\s*let concrete_vals: Vec<Vec<u8>> = vec!\[(.*?)\n\s*\];', re.S)
+RE_TEST = re.compile(r'/// Check for `([^`]*)`: "+(.*?)"+\s*\n(?:(?:///[^\n]*)?\n)*#\[test\]\nfn (\w+)\(\) \{\n\s*let concrete_vals: Vec<Vec<u8>> = vec!\[(.*?)\n\s*\];', re.S)
 
 
 def parse_playback(out):
